@@ -48,10 +48,10 @@ HammerSpecs ==
                                                                    [] j % 4 = 3 -> C("SET", <<kb, N(c)>>) [] OTHER -> C("EXEC", <<>>)]]],
      \* two transactions of four commands each running into each other, and an EXEC against CLIENT INFO (both take
      \* the exclusive lock of the data store)
-     [name |-> "multi-exec-incr", chunk |-> 6, progs |-> [c \in {1, 2, 3} |-> IF c = 3 THEN Rep(C("MGET", <<ka, kb>>), 36)
-                                          ELSE [j \in 1..72 |-> CASE j % 6 = 1 -> C("MULTI", <<>>) [] j % 6 = 2 -> C("INCR", <<ka>>) [] j % 6 = 3 -> C("INCR", <<kb>>)
+     [name |-> "multi-exec-incr", chunk |-> 6, progs |-> [c \in {1, 2, 3} |-> IF c = 3 THEN Rep(C("MGET", <<ka, kb>>), 24)
+                                          ELSE [j \in 1..48 |-> CASE j % 6 = 1 -> C("MULTI", <<>>) [] j % 6 = 2 -> C("INCR", <<ka>>) [] j % 6 = 3 -> C("INCR", <<kb>>)
                                                                    [] j % 6 = 4 -> C("INCR", <<ka>>) [] j % 6 = 5 -> C("INCR", <<kb>>) [] OTHER -> C("EXEC", <<>>)]]],
-     [name |-> "multi-exec-clientinfo", chunk |-> 4, progs |-> [c \in {1, 2} |-> IF c = 2 THEN Rep(C("CLIENT", <<W("INFO")>>), 40)
+     [name |-> "multi-exec-clientinfo", chunk |-> 4, progs |-> [c \in {1, 2} |-> IF c = 2 THEN Rep(C("CLIENT", <<W("INFO")>>), 24)
                                           ELSE [j \in 1..48 |-> CASE j % 4 = 1 -> C("MULTI", <<>>) [] j % 4 = 2 -> C("INCR", <<ka>>)
                                                                    [] j % 4 = 3 -> C("INCR", <<kb>>) [] OTHER -> C("EXEC", <<>>)]]] >>
 HammerInit == StateFullJ(WithDb0(InitServer({1, 2, 3, 4}),
